@@ -9,6 +9,7 @@ package main
 import (
 	"fmt"
 	"strings"
+	"sync"
 )
 
 type c16Restart struct {
@@ -23,64 +24,106 @@ type c16Restart struct {
 func c16RestartStage(c *Ctx) {
 	type change struct {
 		name          string
+		first         string // optional: a list loaded (and possibly verified) first; `list` then arrives by a refresh
 		list          string // histLists key: "unknown" (signed by a CA outside the chain) | "badsig"
 		sig1, sig2    string
 		trust1, trust bool // stranger configured as trusted signer before / after
 	}
 	changes := []change{
-		{"verify_log then verify, signer unknown", "unknown", "verify_log", "verify", false, false},
-		{"none then verify, signer unknown", "unknown", "none", "verify", false, false},
-		{"none then verify, signature wrong", "badsig", "none", "verify", false, false},
-		{"verify_log then unset, signer unknown", "unknown", "verify_log", "", false, false},
-		{"verify with trusted signer, then the signer is removed", "unknown", "verify", "verify", true, false},
+		{"verify_log then verify, signer unknown", "", "unknown", "verify_log", "verify", false, false},
+		{"none then verify, signer unknown", "", "unknown", "none", "verify", false, false},
+		{"none then verify, signature wrong", "", "badsig", "none", "verify", false, false},
+		{"verify_log then unset, signer unknown", "", "unknown", "verify_log", "", false, false},
+		{"verify with trusted signer, then the signer is removed", "", "unknown", "verify", "verify", true, false},
+		{"verify_log: a verified first load, then a refresh with a wrong signature, then verify", "old", "badsig", "verify_log", "verify", false, false},
+		{"verify_log: a verified first load, then a refresh by an unknown signer, then verify", "old", "unknown", "verify_log", "verify", false, false},
+		{"none: first load, refresh with a wrong signature, then verify", "old", "badsig", "none", "verify", false, false},
 	}
 	n := 0
 	var items []string
+	type job struct {
+		n               int
+		ch              change
+		storage, source string
+		res             *c16Restart
+	}
+	var jobs []job
+	var wg sync.WaitGroup
+	sem := make(chan struct{}, 8)
 	for _, storage := range []string{"memory", "disk"} {
 		for _, source := range []string{"cdp", "crl_urls"} {
 			for _, ch := range changes {
 				n++
+				n, ch, storage, source := n, ch, storage, source
 				res := &c16Restart{Name: ch.name, Storage: storage, Source: source}
-				run := func(w *World, sig string, trusted bool, restart bool) string {
-					w.Cfg = VCfg{Mode: "crl_only", Storage: storage, SigMode: sig, CDPStrict: true, Interval: "1h"}
-					if source == "crl_urls" {
-						w.Cfg.CRLUrls = []string{w.Org.URL("/a")}
-					}
-					if trusted {
-						w.Cfg.TrustedSigners = []string{writeCertPEM(c, w.Strang.Cert)}
-					}
-					if restart {
-						if w.Do(Step{Op: "restart"}) != "provisioned" {
+				jobs = append(jobs, job{n, ch, storage, source, res})
+				wg.Add(1)
+				sem <- struct{}{}
+				go func() {
+					defer wg.Done()
+					defer func() { <-sem }()
+					var wA *World
+					run := func(w *World, sig string, trusted bool, restart bool) string {
+						w.Cfg = VCfg{Mode: "crl_only", Storage: storage, SigMode: sig, CDPStrict: true, Interval: "1h"}
+						if source == "crl_urls" {
+							w.Cfg.CRLUrls = []string{w.Org.URL("/a")}
+						}
+						if trusted {
+							w.Cfg.TrustedSigners = []string{writeCertPEM(c, w.Strang.Cert)}
+						}
+						if restart {
+							if w.Do(Step{Op: "restart"}) != "provisioned" {
+								return "provision-error"
+							}
+						} else if err := w.Provision(); err != nil {
 							return "provision-error"
 						}
-					} else if err := w.Provision(); err != nil {
-						return "provision-error"
+						// listed probe, unlisted probe (strict: accepted only if the CDP list is in force)
+						out := w.Do(hs("listed")) + "/" + w.Do(hs("unlisted"))
+						if !restart && ch.first != "" && w == wA {
+							// deployment 1 continues: the final list arrives by a refresh
+							w.Do(sv("/a", ch.list))
+							w.Do(refreshStep)
+							out += "/" + w.Do(hs("listed")) + "/" + w.Do(hs("unlisted"))
+						}
+						return out
 					}
-					// listed probe, unlisted probe (strict: accepted only if the CDP list is in force)
-					return w.Do(hs("listed")) + "/" + w.Do(hs("unlisted"))
-				}
-				mk := func(tag string) *World {
-					w := NewWorld(c, fmt.Sprintf("c16r_%d_%s", n, tag))
-					for name, s := range histLists {
-						w.AddList(name, s)
+					mk := func(tag string) *World {
+						w := NewWorld(c, fmt.Sprintf("c16r_%d_%s", n, tag))
+						for name, s := range histLists {
+							w.AddList(name, s)
+						}
+						if tag == "a" && ch.first != "" {
+							w.Do(sv("/a", ch.first))
+						} else {
+							w.Do(sv("/a", ch.list))
+						}
+						serial := histLists[ch.list].Serials[0]
+						var cdp []string
+						if source == "cdp" {
+							cdp = []string{"/a"}
+						}
+						w.AddCert("listed", CertSpec{Serial: serial, CDP: cdp})
+						w.AddCert("unlisted", CertSpec{Serial: 103, CDP: cdp})
+						return w
 					}
-					w.Do(sv("/a", ch.list))
-					serial := histLists[ch.list].Serials[0]
-					var cdp []string
-					if source == "cdp" {
-						cdp = []string{"/a"}
-					}
-					w.AddCert("listed", CertSpec{Serial: serial, CDP: cdp})
-					w.AddCert("unlisted", CertSpec{Serial: 103, CDP: cdp})
-					return w
-				}
-				w := mk("a")
-				res.Before = run(w, ch.sig1, ch.trust1, false)
-				res.After = run(w, ch.sig2, ch.trust, true)
-				w.Close()
-				f := mk("b")
-				res.Fresh = run(f, ch.sig2, ch.trust, false)
-				f.Close()
+					w := mk("a")
+					wA = w
+					res.Before = run(w, ch.sig1, ch.trust1, false)
+					res.After = run(w, ch.sig2, ch.trust, true)
+					w.Close()
+					f := mk("b")
+					res.Fresh = run(f, ch.sig2, ch.trust, false)
+					f.Close()
+				}()
+			}
+		}
+	}
+	wg.Wait()
+	for _, j := range jobs {
+		n, ch, storage, source, res := j.n, j.ch, j.storage, j.source, j.res
+		{
+			{
 				c.Rep.Cases++
 				c.Count("restart-changed-config=" + storage)
 				c.Nontrivial(fmt.Sprintf("restart|%s|%s|%s", ch.name, storage, source))
@@ -109,8 +152,14 @@ func c16RestartStage(c *Ctx) {
 					for _, v := range strings.Split(res.Before+"/"+res.After, "/") {
 						obs = append(obs, code[v])
 					}
-					items = append(items, fmt.Sprintf("mk_sc %d [(%s, [SServe 1 (Serve L_%s); SHandshake %s; SHandshake %s]); (%s, [SHandshake %s; SHandshake %s])] [%s]",
-						n, cfgOf(ch.sig1), ch.list, cert(serial, ch.trust1), cert(103, ch.trust1), cfgOf(ch.sig2), cert(serial, ch.trust), cert(103, ch.trust), strings.Join(obs, "; ")))
+					seg1 := fmt.Sprintf("SServe 1 (Serve L_%s); SHandshake %s; SHandshake %s", ch.list, cert(serial, ch.trust1), cert(103, ch.trust1))
+					if ch.first != "" {
+						seg1 = fmt.Sprintf("SServe 1 (Serve L_%s); SHandshake %s; SHandshake %s; SServe 1 (Serve L_%s); SRefresh NoFault; SHandshake %s; SHandshake %s",
+							ch.first, cert(serial, ch.trust1), cert(103, ch.trust1), ch.list, cert(serial, ch.trust1), cert(103, ch.trust1))
+						obs = append(append(append([]string{}, obs[:3]...), "0", "0"), obs[3:]...)
+					}
+					items = append(items, fmt.Sprintf("mk_sc %d [(%s, [%s]); (%s, [SHandshake %s; SHandshake %s])] [%s]",
+						n, cfgOf(ch.sig1), seg1, cfgOf(ch.sig2), cert(serial, ch.trust), cert(103, ch.trust), strings.Join(obs, "; ")))
 				}
 				if res.After != res.Fresh {
 					c.Fail("", fmt.Sprintf("restart with a changed configuration (%s; %s, %s): before %q, after the restart %q, but a fresh work_dir under the new configuration gives %q — a CRL that fails verification is in force after the restart", ch.name, storage, source, res.Before, res.After, res.Fresh), res)
